@@ -763,3 +763,10 @@ PROPS["C20"]["runs"].append(
     dict(name="disc: Synchronize || HandleMessage (a peer's early query / announcement / response)", dir="disc", files=["disc_c20.go.txt", "disc_model.go.txt"], entry="verifH_C20_disc",
          args=["-realhex", "-redirect", _DISC_RD, "-race", "-acqonly", "-preempt", "2"], count=["race:", "panic:", "deadlock:"], expect_covers=["end"], replay_repeat=2, replay_args=["-nativeredirect", "-instr", "discovery.go"],
          bounds={"goroutines": "Synchronize (caller), one dispatcher with two messages of peer 2 (types symbolic), deadline", "preemptions": "<= 2", "sync.Map": "model with internal synchronisation (one mutex), also in the native replay (so that the schedule can be enforced at its operations)"}))
+
+PROPS["C09"]["runs"].append(
+    _ps("verifH_C09_cheating_requester", ["ps_c09b.go.txt"], name="PS: a cheating requester (one ciphertext encrypts another value; proof computed by the real prover over a witness of its choice) is refused", count=["assert:C09-", "panic:"], covers=["end"],
+        bounds={"message length": 1, "deviating slot": "any, the slot of m' included (symbolic)", "deviation": "any non-zero amount", "witness of the proof": "what the ciphertexts encrypt / what the commitment holds (symbolic)", "challenge": "any non-zero value (uninterpreted oracle)"}))
+PROPS["C09"]["runs"].append(
+    _ps("verifH_C09_cheating_prover", ["ps_c09b.go.txt"], name="PS: a proof of knowledge built by the real prover for another message entry or another witness is rejected", count=["assert:C09-", "panic:"], covers=["end"],
+        bounds={"message length": 1, "deviation": "one message entry (the slot of m' included) or the witness h', by any non-zero amount (symbolic choice)"}))
